@@ -200,7 +200,14 @@ def run(prog, rep):
         passes = [term(a) for a in real_args(c)]
         params_ok = all(any(p == ('v', q['lid'], q['name']) for p in passes) for q in bf.params)
         okb = in_loop and derives and params_ok
-    rule.check(okb, 'Block::findSources|roots', rep.where(bf), bf.label(), 'every root source is searched with the given filter and depth and the results are concatenated')
+        whyb = ''
+        loops = [a for a in c.ancestors() if a.k == 'rangefor']
+        if loops:
+            early = [x for x in loops[0].walk() if x.k in ('break', 'return', 'continue')]
+            if early:
+                okb = False
+                whyb = 'the loop over the root sources can be left early (line %s): matches under the remaining roots are missing' % early[0].l
+    rule.check(okb, 'Block::findSources|roots', rep.where(bf), bf.label(), 'every root source is searched with the given filter and depth and the results are concatenated', whyb if inner else '')
     # back references of a section
     table = [
         ('referringDataArrays', 'dataArrays', 'MetadataFilter<nix::DataArray>'),
